@@ -2,6 +2,7 @@ package rules
 
 import (
 	"bytes"
+	"encoding/json"
 	"fmt"
 	"go/ast"
 	"go/parser"
@@ -32,6 +33,8 @@ import (
 //       selected from the interfaces/markers/wrappers packages)
 //   E6  short variable declarations whose variables are no longer used
 //   E7  if A { if B {S} } (no else) stands for if A && B {S}
+//   E9  `v := e` directly followed by the only statement using v once stands
+//       for that statement with e in place of v
 //   E8  buffer primitives: Cap()/Reset()/Take*() vs cap/[:0]/conversion;
 //       WriteByte(x) vs append(buf, x); result type RedactableString vs string
 
@@ -48,6 +51,49 @@ var redactNames = map[string]bool{
 
 type auditor struct {
 	pkgAliases map[string]bool // import names of the redact-specific packages
+	own        map[string]bool // unexported names declared in the hand-written files of the package
+}
+
+// ownNames collects the unexported top-level names (functions, methods,
+// variables, constants, types) declared in the files of package rfmt that are
+// not imported from fmt: whatever the generated files say about them is
+// redact-specific by construction.
+func ownNames(dir string) map[string]bool {
+	out := map[string]bool{}
+	files, _ := filepath.Glob(filepath.Join(dir, "*.go"))
+	for _, fn := range files {
+		b := filepath.Base(fn)
+		if b == "print.go" || b == "format.go" || strings.HasSuffix(b, "_test.go") {
+			continue
+		}
+		f, err := parser.ParseFile(token.NewFileSet(), fn, nil, 0)
+		if err != nil {
+			continue
+		}
+		add := func(n string) {
+			if n != "" && n != "_" && !ast.IsExported(n) {
+				out[n] = true
+			}
+		}
+		for _, d := range f.Decls {
+			switch x := d.(type) {
+			case *ast.FuncDecl:
+				add(x.Name.Name)
+			case *ast.GenDecl:
+				for _, sp := range x.Specs {
+					switch y := sp.(type) {
+					case *ast.ValueSpec:
+						for _, n := range y.Names {
+							add(n.Name)
+						}
+					case *ast.TypeSpec:
+						add(y.Name.Name)
+					}
+				}
+			}
+		}
+	}
+	return out
 }
 
 func (a *auditor) mentionsRedact(n ast.Node) bool {
@@ -55,14 +101,14 @@ func (a *auditor) mentionsRedact(n ast.Node) bool {
 	ast.Inspect(n, func(x ast.Node) bool {
 		switch v := x.(type) {
 		case *ast.Ident:
-			if redactNames[v.Name] {
+			if redactNames[v.Name] || a.own[v.Name] {
 				found = true
 			}
 		case *ast.SelectorExpr:
 			if id, ok := v.X.(*ast.Ident); ok && a.pkgAliases[id.Name] {
 				found = true
 			}
-			if redactNames[v.Sel.Name] {
+			if redactNames[v.Sel.Name] || a.own[v.Sel.Name] {
 				found = true
 			}
 		}
@@ -260,6 +306,107 @@ func dropUnused(body *ast.BlockStmt) {
 			if as, ok := s.(*ast.AssignStmt); ok && as.Tok == token.DEFINE && len(as.Lhs) == 1 {
 				if id, ok := as.Lhs[0].(*ast.Ident); ok && id.Name != "_" && usesIn(list[i+1:], id.Name) == 0 {
 					continue
+				}
+			}
+			switch x := s.(type) {
+			case *ast.IfStmt:
+				x.Body.List = walk(x.Body.List)
+				if e, ok := x.Else.(*ast.BlockStmt); ok {
+					e.List = walk(e.List)
+				}
+			case *ast.BlockStmt:
+				x.List = walk(x.List)
+			case *ast.ForStmt:
+				x.Body.List = walk(x.Body.List)
+			case *ast.RangeStmt:
+				x.Body.List = walk(x.Body.List)
+			case *ast.SwitchStmt:
+				for _, c := range x.Body.List {
+					cc := c.(*ast.CaseClause)
+					cc.Body = walk(cc.Body)
+				}
+			case *ast.TypeSwitchStmt:
+				for _, c := range x.Body.List {
+					cc := c.(*ast.CaseClause)
+					cc.Body = walk(cc.Body)
+				}
+			}
+			out = append(out, s)
+		}
+		return out
+	}
+	body.List = walk(body.List)
+}
+
+// inlineAdjacent applies E9: `v := e` immediately followed by the only
+// statement that uses v, exactly once, stands for that statement with e in
+// place of v (a temporary introduced or removed for readability).
+func inlineAdjacent(body *ast.BlockStmt) {
+	count := func(n ast.Node, name string) int {
+		k := 0
+		ast.Inspect(n, func(x ast.Node) bool {
+			if id, ok := x.(*ast.Ident); ok && id.Name == name {
+				k++
+			}
+			return true
+		})
+		return k
+	}
+	var walk func(list []ast.Stmt) []ast.Stmt
+	walk = func(list []ast.Stmt) []ast.Stmt {
+		var out []ast.Stmt
+		for i := 0; i < len(list); i++ {
+			s := list[i]
+			if as, ok := s.(*ast.AssignStmt); ok && as.Tok == token.DEFINE && len(as.Lhs) == 1 && len(as.Rhs) == 1 && i+1 < len(list) {
+				if id, ok := as.Lhs[0].(*ast.Ident); ok && id.Name != "_" {
+					next := list[i+1]
+					rest := 0
+					for _, t := range list[i+2:] {
+						rest += count(t, id.Name)
+					}
+					simple := false
+					switch next.(type) {
+					case *ast.ExprStmt, *ast.AssignStmt, *ast.ReturnStmt:
+						simple = true
+					}
+					if simple && rest == 0 && count(next, id.Name) == 1 {
+						rhs := as.Rhs[0]
+						replaced := false
+						var sub func(n ast.Node) bool
+						sub = func(n ast.Node) bool {
+							switch x := n.(type) {
+							case *ast.CallExpr:
+								for j, a := range x.Args {
+									if aid, ok := a.(*ast.Ident); ok && aid.Name == id.Name {
+										x.Args[j] = rhs
+										replaced = true
+									}
+								}
+								if fid, ok := x.Fun.(*ast.Ident); ok && fid.Name == id.Name {
+									_ = fid
+								}
+							case *ast.ReturnStmt:
+								for j, a := range x.Results {
+									if aid, ok := a.(*ast.Ident); ok && aid.Name == id.Name {
+										x.Results[j] = rhs
+										replaced = true
+									}
+								}
+							case *ast.AssignStmt:
+								for j, a := range x.Rhs {
+									if aid, ok := a.(*ast.Ident); ok && aid.Name == id.Name {
+										x.Rhs[j] = rhs
+										replaced = true
+									}
+								}
+							}
+							return !replaced
+						}
+						ast.Inspect(next, sub)
+						if replaced {
+							continue // the declaration is gone; next is emitted on the following iteration
+						}
+					}
 				}
 			}
 			switch x := s.(type) {
@@ -507,6 +654,7 @@ func (a *auditor) auditFuncs(name, src, side string) (map[string][]string, error
 			}
 			fd.Body.List = a.eraseStmts(fd.Body.List) // flatten what E6 uncovered
 		}
+		inlineAdjacent(fd.Body)
 		mapPrimitives(fd, side)
 		renameParams(fd)
 		var b bytes.Buffer
@@ -516,6 +664,8 @@ func (a *auditor) auditFuncs(name, src, side string) (map[string][]string, error
 		var lines []string
 		for _, l := range strings.Split(b.String(), "\n") {
 			l = strings.TrimSpace(l)
+			l = reIface.ReplaceAllString(l, "any")
+			l = rePtr.ReplaceAllString(l, "reflect.Pointer")
 			if l != "" {
 				lines = append(lines, l)
 			}
@@ -535,49 +685,197 @@ var auditSkip = map[string]string{
 }
 
 func ruleC04a3(c *Ctx) []*report.Result {
-	r := report.NewResult("C04.a3", "audit of the recorded patch: after erasing the instrumentation forms (deferred start*/restore, redact-only helper calls, closures that only carry such a defer, branches and type-switch arms on redact-specific names, variables they alone use) and mapping the buffer primitives, every function of print.go/format.go is identical to the function of the same name in the import base: the patch classifies output, it does not change what fmt computes", 55)
-	base := c.reconstructBase(report.NewResult("x", "", 0))
+	r := report.NewResult("C04.a3", "audit of the instrumentation: after erasing the instrumentation forms (deferred start*/restore, redact-only helper calls, closures that only carry such a defer, branches, tagless switches and type-switch arms on redact-specific names, variables they alone use) and mapping the buffer primitives, every function of print.go/format.go is identical (i) to the function of the same name in the import base reconstructed from the recorded patch, when that patch is current, and (ii) to the function of the same name in the reference fmt, up to the recorded upstream evolution — (ii) does not use the recorded patch at all: the fork classifies output, it does not change what fmt computes", 110)
+	base, stale := c.reconstructBaseStale(report.NewResult("x", "", 0))
+	own := ownNames(filepath.Join(c.P.Dir, "internal/rfmt"))
 	for _, f := range []string{"print.go", "format.go"} {
-		src, ok := base[f]
-		if !ok {
-			r.Undecide("import base of " + f + " could not be reconstructed (see C04.a)")
-			continue
-		}
 		cur, err := os.ReadFile(filepath.Join(c.P.Dir, "internal/rfmt", f))
 		if err != nil {
 			r.Undecide("cannot read " + f)
 			continue
 		}
-		a := &auditor{}
+		a := &auditor{own: own}
 		fork, err1 := a.auditFuncs(f, string(cur), "fork")
-		orig, err2 := a.auditFuncs(f, src, "base")
-		if err1 != nil || err2 != nil {
-			r.Undecide(fmt.Sprintf("cannot parse %s: %v %v", f, err1, err2))
+		if err1 != nil {
+			r.Undecide(fmt.Sprintf("cannot parse %s: %v", f, err1))
 			continue
 		}
-		keys := make([]string, 0, len(orig))
-		for k := range orig {
-			keys = append(keys, k)
-		}
-		sort.Strings(keys)
-		for _, k := range keys {
-			construct := "rfmt " + f + " / " + k
-			if why, skip := auditSkip[k]; skip {
-				r.Note(k + ": " + why)
+		// (i) against the reconstructed import base
+		if src, ok := base[f]; ok && !stale[f] {
+			orig, err2 := a.auditFuncs(f, src, "base")
+			if err2 != nil {
+				r.Undecide(fmt.Sprintf("cannot parse the import base of %s: %v", f, err2))
 				continue
 			}
-			fk, ok := fork[k]
-			if !ok {
-				r.Fail(construct, "internal/rfmt/"+f, "function of the import base is missing from the fork", nil, "")
-				continue
+			keys := make([]string, 0, len(orig))
+			for k := range orig {
+				keys = append(keys, k)
 			}
-			d := lineDiff(orig[k], fk)
-			if len(d) == 0 {
-				r.Ok(k + ": identical to the import base after erasure")
-			} else {
-				r.Fail(construct, "internal/rfmt/"+f, "deviates from the import base beyond the instrumentation forms: "+strings.Join(firstN(d, 6), " | "), nil, "")
+			sort.Strings(keys)
+			for _, k := range keys {
+				construct := "rfmt " + f + " / " + k
+				if why, skip := auditSkip[k]; skip {
+					r.Note(k + ": " + why)
+					continue
+				}
+				fk, ok := fork[k]
+				if !ok {
+					r.Fail(construct, "internal/rfmt/"+f, "function of the import base is missing from the fork", nil, "")
+					continue
+				}
+				d := lineDiff(orig[k], fk)
+				if len(d) == 0 {
+					r.Ok(k + ": identical to the import base after erasure")
+				} else {
+					r.Fail(construct, "internal/rfmt/"+f, "deviates from the import base beyond the instrumentation forms: "+strings.Join(firstN(d, 6), " | "), nil, "")
+				}
 			}
+		} else {
+			r.Note(f + ": the recorded patch is not current; decided by the direct comparison with the reference fmt only")
+			r.Floor -= map[string]int{"print.go": 42, "format.go": 24}[f] // the obligations of (i) for this file are not stated
 		}
+		// (ii) against the reference fmt, without the recorded patch
+		c.auditAgainstReference(r, a, f, fork, nil)
 	}
 	return []*report.Result{r}
+}
+
+type mappedEvolution map[string]map[string][]string // file -> function -> diff lines (audit normal form)
+
+const absentInBase = "<not in the import base>"
+
+// auditAgainstReference compares the erased and mapped fork functions with
+// the mapped functions of each reference fmt; a difference must be exactly
+// the one recorded in evolution_mapped.json for that reference. With gen
+// non-nil nothing is reported and the table is filled instead (from the
+// reconstructed import base, which is what the fork must reduce to).
+func (c *Ctx) auditAgainstReference(r *report.Result, a *auditor, f string, fork map[string][]string, gen map[string]mappedEvolution, only ...func(string) bool) {
+	refs, _ := filepath.Glob(filepath.Join(c.oracleDir(), "go*"))
+	sort.Strings(refs)
+	type refData struct {
+		name  string
+		funcs map[string][]string
+		evo   map[string][]string
+	}
+	var rds []refData
+	for _, rd := range refs {
+		b, err := os.ReadFile(filepath.Join(rd, f+".txt"))
+		if err != nil {
+			continue
+		}
+		ft, err := (&auditor{}).auditFuncs(f, string(b), "base")
+		if err != nil {
+			if r != nil {
+				r.Undecide("reference " + rd + "/" + f + " does not parse")
+			}
+			continue
+		}
+		var evo mappedEvolution
+		if eb, err := os.ReadFile(filepath.Join(rd, "evolution_mapped.json")); err == nil {
+			json.Unmarshal(eb, &evo)
+		}
+		rds = append(rds, refData{filepath.Base(rd), ft, evo[f]})
+	}
+	if gen != nil {
+		for _, rd := range rds {
+			if gen[rd.name] == nil {
+				gen[rd.name] = mappedEvolution{}
+			}
+			m := map[string][]string{}
+			for k, up := range rd.funcs {
+				fk, ok := fork[k]
+				if !ok {
+					m[k] = []string{absentInBase}
+					continue
+				}
+				if d := lineDiff(fk, up); len(d) > 0 {
+					m[k] = d
+				}
+			}
+			for k, fk := range fork {
+				if _, ok := rd.funcs[k]; !ok {
+					m[k] = lineDiff(fk, nil)
+				}
+			}
+			gen[rd.name][f] = m
+		}
+		return
+	}
+	if len(rds) == 0 {
+		r.Undecide("no reference fmt sources under " + c.oracleDir())
+		return
+	}
+	// the functions to account for: those of a reference or of a recorded entry
+	keys := map[string]bool{}
+	for _, rd := range rds {
+		for k := range rd.funcs {
+			keys[k] = true
+		}
+		for k := range rd.evo {
+			keys[k] = true
+		}
+	}
+	var ks []string
+	for k := range keys {
+		ks = append(ks, k)
+	}
+	sort.Strings(ks)
+	for _, k := range ks {
+		if _, skip := auditSkip[k]; skip {
+			continue
+		}
+		if len(only) > 0 && !only[0](k) {
+			continue
+		}
+		construct := "rfmt " + f + " / " + k + " vs reference"
+		okAny, why := false, ""
+		for _, rd := range rds {
+			rec := rd.evo[k]
+			up, inRef := rd.funcs[k]
+			fk, inFork := fork[k]
+			if len(rec) == 1 && rec[0] == absentInBase {
+				// added upstream after the import: nothing to compare
+				okAny = true
+				break
+			}
+			if !inFork {
+				why = "function of the reference fmt (" + rd.name + ") is missing from the fork"
+				continue
+			}
+			if !inRef {
+				up = nil
+			}
+			d := lineDiff(fk, up)
+			if equalStrings(d, rec) || (len(d) == 0 && len(rec) == 0) {
+				okAny = true
+				break
+			}
+			if why == "" || len(d) < 8 {
+				seen := map[string]int{}
+				for _, l := range rec {
+					seen[l]++
+				}
+				var beyond []string
+				for _, l := range d {
+					if seen[l] > 0 {
+						seen[l]--
+					} else {
+						beyond = append(beyond, l)
+					}
+				}
+				for l, n := range seen {
+					if n > 0 {
+						beyond = append(beyond, "(recorded evolution line no longer present: "+l+")")
+					}
+				}
+				sort.Strings(beyond)
+				why = fmt.Sprintf("after erasure it differs from %s's fmt beyond the recorded upstream evolution ('-' fork, '+' reference): %s", rd.name, strings.Join(firstN(beyond, 6), " | "))
+			}
+		}
+		if okAny {
+			r.Ok(k + ": fmt's function after erasure")
+		} else {
+			r.Fail(construct, "internal/rfmt/"+f, why, nil, "")
+		}
+	}
 }
